@@ -428,9 +428,9 @@ def standard_proof_phase(rep, pid, extra_targets=()):
     """regenerate, build Props/<pid>.vo, collect obligations and axioms, run the grep gate.
     Returns True when every obligation is discharged."""
     tr = regen()
-    for name, err in tr.items():
-        if err:
-            rep.broken_obligation('translator:' + name, err)
+    # a translator that fails closed leaves a stub that does not compile: it is reported through the build of the
+    # targets that depend on its output (other properties are not affected)
+    rep.cov['translators'] = {k: ('ok' if v is None else 'FAILED: ' + v[-300:]) for k, v in tr.items()}
     b = coq_build(['Props/%s.vo' % pid] + list(extra_targets))
     names = props_theorems(pid)
     rep.cov['obligations'] = len(names)
